@@ -222,3 +222,20 @@ Theorem C18_reader_search : forall h0 ls e n height fuel rs sched,
        (forall x, In x (ents h0 (ls 0%nat)) -> In x out)).
 Proof. exact SkipConc.C18_reader_search. Qed.
 Print Assumptions C18_reader_search.
+
+(* readers that appear at any moment while the writer works through any list of inserts *)
+Theorem C18_reader_multi : forall fuel h0 ls0 todo sched1 sched2,
+  wf_heap h0 ls0 -> todo_ok h0 todo -> (length (ls0 0%nat) + length todo <= fuel)%nat ->
+  let s1 := m_run fuel (m_init h0 todo) sched1 in
+  let s2 := m_run fuel (m_step fuel s1 MSpawn) sched2 in
+  let r := nth (length (m_readers s1)) (m_readers s2) r_init in
+  exists C1 C2,
+    path (m_heap s1) 0 (Some head) C1 /\
+    path (m_heap s2) 0 (Some head) C2 /\ sorted (ents (m_heap s2) (tl C2)) /\
+    (exists rest, subseq C1 (r_done r ++ rest) /\ subseq (r_done r ++ rest) C2) /\
+    (r_cur r = None ->
+       let out := ents (m_heap s2) (tl (r_done r)) in
+       sorted out /\ subseq (tl C1) (tl (r_done r)) /\ subseq (tl (r_done r)) (tl C2) /\
+       (forall x, In x (ents (m_heap s1) (tl C1)) -> In x out)).
+Proof. exact SkipConc.C18_reader_multi. Qed.
+Print Assumptions C18_reader_multi.
